@@ -67,15 +67,22 @@ func TemplBin(c *core.Ctx, race bool) string {
 		return b
 	}
 	templMu.Unlock()
+	// Build from a scratch module that replaces templ with the repository under
+	// test, so that `go build -mod=mod` never touches /repo's own go.sum.
 	dir := Scratch("templbin")
 	bin := filepath.Join(dir, "templ")
+	gomod := "module templbin\n\ngo 1.23.0\n\nrequire github.com/a-h/templ v0.0.0\n\nreplace github.com/a-h/templ => " + c.Repo + "\n"
+	_ = os.WriteFile(filepath.Join(dir, "go.mod"), []byte(gomod), 0o644)
+	if sum, err := os.ReadFile(filepath.Join(c.Repo, "go.sum")); err == nil {
+		_ = os.WriteFile(filepath.Join(dir, "go.sum"), sum, 0o644)
+	}
 	args := []string{"build", "-tags", "verif", "-o", bin}
 	if race {
 		args = append(args, "-race")
 	}
-	args = append(args, "./cmd/templ")
+	args = append(args, "github.com/a-h/templ/cmd/templ")
 	cmd := exec.Command("go", args...)
-	cmd.Dir = c.Repo
+	cmd.Dir = dir
 	cmd.Env = Env()
 	out, err := cmd.CombinedOutput()
 	if err != nil {
@@ -140,7 +147,10 @@ func (p *Pkg) Build(race bool, pkgPath string) (bin string, output string, err e
 	if race {
 		bin += ".race"
 	}
-	args := []string{"build", "-tags", "verif", "-o", bin}
+	// -gcflags=-l (scratch package only): generated templates are nests of
+	// closures, which the inliner duplicates; without it large corpus packages
+	// take minutes to compile. templ itself is compiled normally.
+	args := []string{"build", "-tags", "verif", "-gcflags=-l", "-o", bin}
 	if race {
 		args = append(args, "-race")
 	}
